@@ -295,12 +295,6 @@ class C15(Prop):
         P = Fr(1) if period is None else Fr(period[0] * {'s': 1000, 'ms': 1}[period[1]], 1000)
         times = [float(i * P) for i in range(n)]
         h = lang.horizon(f)
-        from rtverif import pastmodel
-        if h and pastmodel.past_over_future(f):
-            # the open finding D-past-over-future: what a past operator above a look-ahead operand returns after
-            # pastify() is wrong near the start in a construction-dependent way (the comparator is not reliable)
-            v.info['ltl-online:skipped-inside-D-past-over-future'] = 1
-            return
         v.info['variant:ltl-online%s' % ('' if not h else '-pastified')] = 1
         try:
             want = drive.dt_online(text, names, data, n, times=times, pastify=True,
